@@ -229,3 +229,64 @@ func runBERace(c *mon.Case, sp spec) {
 	}
 	c.Nontrivial()
 }
+
+// runChurn: a Recv on SUB blocked with a receive deadline while, on the same socket or context,
+// subscriptions are removed and added and the receive queue is resized every quarter deadline.
+// None of that is a message: the Recv still returns the timeout error, not before the deadline and
+// not long after it (the canary-calibrated rule; the churn goes on for three deadlines, so a
+// deadline that is restarted by each change shows as a return after the churn has ended).
+func runChurn(c *mon.Case, sp spec) {
+	w := newWorld(c, sp)
+	if w == nil {
+		return
+	}
+	D := sp.D()
+	w.obj.SetOption(mangos.OptionSubscribe, "never-published")
+	if !w.setOpt(optRD, D) {
+		return
+	}
+	stop := make(chan struct{})
+	churnDone := make(chan struct{})
+	tc := w.timedOp()
+	go func() {
+		defer close(churnDone)
+		for i := 0; i < 12; i++ {
+			select {
+			case <-stop:
+				return
+			case <-time.After(D / 4):
+			}
+			switch (i + sp.K) % 3 {
+			case 0:
+				w.obj.SetOption(mangos.OptionSubscribe, fmt.Sprintf("topic-%d", i))
+			case 1:
+				w.obj.SetOption(mangos.OptionUnsubscribe, fmt.Sprintf("topic-%d", i-1))
+			default:
+				w.obj.SetOption(mangos.OptionReadQLen, 2+i%5)
+			}
+		}
+	}()
+	ok := c.AwaitOrViolate("deadline-ignored/churn/"+w.id(), fmt.Sprintf("%s with deadline %v returning while subscriptions and the queue length change", w.id(), D), tc.call.Done, mon.AwaitOpts{MaxTimer: D})
+	close(stop)
+	<-churnDone
+	if !ok {
+		w.outcome = "no-return"
+		return
+	}
+	err, el := tc.err(), tc.elapsed()
+	c.Count("timed_calls", 1)
+	switch {
+	case err != w.wantTimeout():
+		w.outcome = "wrong:" + errName(err)
+		c.Violate("blocked-call-wrong-error/"+w.id()+"/"+errName(err), "%s with deadline %v and nothing to receive returned %v after %v", w.id(), D, err, el)
+	case el < D:
+		w.outcome = "early"
+		c.Violate("timeout-early/"+w.id(), "%s: timeout error after %v, before the deadline %v had elapsed", w.id(), el, D)
+	case el >= 3*D && mon.UpperBoundExceeded(el, D):
+		w.outcome = "hang"
+		c.Violate("hang/churn/"+w.id(), "%s: deadline %v, but the timeout came after %v — only once the subscription/queue changes (every %v for %v) had stopped (canary worst oversleep %v)", w.id(), D, el, D/4, 3*D, mon.CanaryWorst())
+	default:
+		w.outcome = "ok"
+		c.Nontrivial()
+	}
+}
